@@ -12,7 +12,7 @@ from props import bf3common as B
 from props import bec2common as C
 from props.C02 import parse_header
 
-GEN_DEPS = ("Consts.v", "gen_consts", "Crc.v", "gen_crc")
+GEN_DEPS = ("Consts.v", "gen_consts", "Crc.v", "gen_crc", "AesFrame.v", "gen_aesframe")
 MODEL_TARGETS = ["Model/Bec2.vo", "Model/Bec2Eq.vo", "Model/Bf3Eq.vo", "Model/Cbc.vo"]
 IMPORTS = C.IMPORTS
 
